@@ -76,6 +76,7 @@ type hopts struct {
 	acc, othAcc [8]byte
 	withChat    bool
 	reqNoAgreed bool
+	orphan      bool   // an account file Users/newacct.yaml that the account manager does not know
 	third       string // "", "none", "same" (bystander from the second client's address), "other" (from another address)
 	pacc        [8]byte
 }
@@ -153,7 +154,20 @@ func newHWorld(o hopts) (*hworld, error) {
 		// liar.txt claims to be a folder
 		".info_Stuff":    string(infoFork("TEXT", "ttxt", "Stuff", "")),
 		".info_liar.txt": string(infoFork("fldr", "n/a ", "liar.txt", "")),
+		// something to lose at every target a request names: stale partial uploads with side files in every
+		// location class, partial folder uploads, an occupant at the move / alias / rename destination
+		"new.bin.incomplete": "stale", ".info_new.bin": string(infoFork("BINA", "????", "new.bin", "stale")), ".rsrc_new.bin": "stale rsrc",
+		"Uploads/new.bin.incomplete": "stale", "Uploads/.info_new.bin": string(infoFork("BINA", "????", "new.bin", "stale")), "Uploads/.rsrc_new.bin": "stale rsrc",
+		"Drop Box/new.bin.incomplete": "stale", "Drop Box/.info_new.bin": string(infoFork("BINA", "????", "new.bin", "stale")), "Drop Box/.rsrc_new.bin": "stale rsrc",
+		"Folder/new.bin.incomplete": "stale", "Folder/.info_new.bin": string(infoFork("BINA", "????", "new.bin", "stale")), "Folder/.rsrc_new.bin": "stale rsrc",
+		"Uploads/.info_part.bin": string(infoFork("BINA", "????", "part.bin", "partial")), "Uploads/.rsrc_part.bin.incomplete": "partial rsrc",
+		"UpDir/x.bin.incomplete": "stale", "Uploads/UpDir/x.bin.incomplete": "stale", "Drop Box/UpDir/x.bin.incomplete": "stale",
+		"Folder/UpDir/x.bin.incomplete": "stale",
+		"occupied.txt": "occupant", "Dest/occupied.txt": "occupant at the destination", ".info_occupied.txt": string(infoFork("TEXT", "ttxt", "occupied.txt", "keep me")),
 	} {
+		if err := os.MkdirAll(filepath.Dir(filepath.Join(w.Root, p)), 0755); err != nil {
+			return fail(err)
+		}
 		if err := os.WriteFile(filepath.Join(w.Root, p), []byte(data), 0644); err != nil {
 			return fail(err)
 		}
@@ -167,6 +181,11 @@ func newHWorld(o hopts) (*hworld, error) {
 	if err := w.News.PostArticle([]string{"Cat"}, 0, hotline.NewsArtData{Title: "First", Poster: "setup",
 		Date: hotline.NewTime(time.Unix(1700000000, 0)), DataFlav: hotline.NewsFlavor, Data: "article body"}); err != nil {
 		return fail(err)
+	}
+	if o.orphan {
+		if err := os.WriteFile(filepath.Join(w.Config, "Users", "newacct.yaml"), []byte(sim.AccountYAML(sim.Acct{Login: "newacct", Name: "Orphan", Password: "op"})), 0644); err != nil {
+			return fail(err)
+		}
 	}
 	// the requester's account gets exactly the case's bitmap (all 64 bits, through the real account manager)
 	if err := setAccess(w, "req", acc); err != nil {
@@ -393,6 +412,25 @@ func setField(f []sim.F, id int, data []byte) []sim.F {
 func applyVariant(t int, v string, f []sim.F) ([]sim.F, error) {
 	if v == "extra" {
 		return append(f, sim.Fld(999, []byte("unknown field"))), nil
+	}
+	if v == "orphan" || (t == 112 && v == "chat") {
+		return f, nil // the world differs, not the request
+	}
+	if v == "exists" {
+		switch t {
+		case 350:
+			return setField(f, sim.FUserLogin, sim.Obfuscate([]byte("spare"))), nil
+		case 381:
+			return setField(f, sim.FFileName, []byte("Bundle")), nil
+		case 382:
+			return setField(f, sim.FNewsCatName, []byte("Cat")), nil
+		case 205:
+			return setField(f, sim.FFileName, []byte("Folder")), nil
+		case 208, 209:
+			return setField(f, sim.FFileName, []byte("occupied.txt")), nil
+		case 207:
+			return setField(f, sim.FFileNewName, []byte("occupied.txt")), nil
+		}
 	}
 	switch t {
 	case 108:
@@ -781,7 +819,8 @@ func runHandle(c map[string]any, ev map[string]any) error {
 	k, _ := c["k"].(string)
 	acc := bitmapOf(c["acc"])
 	base, _, _ := strings.Cut(k, "/")
-	h, err := newHWorld(hopts{acc: acc, othAcc: allDefinedBut(23), withChat: needsChat(t, base), reqNoAgreed: t == 121})
+	h, err := newHWorld(hopts{acc: acc, othAcc: allDefinedBut(23), withChat: needsChat(t, base) || (t == 112 && strings.HasSuffix(k, "/chat")),
+		reqNoAgreed: t == 121, orphan: strings.HasSuffix(k, "/orphan")})
 	if err != nil {
 		return err
 	}
